@@ -78,4 +78,6 @@ def panel (f : Feat) : Panel :=
     prog := prog f,
     ctrl := .uc (Uc.por WIDTH HEIGHT 4 9 false) }
 
+attribute [driver_simp] W colorsByte updateFrame displayFrame color7 prog
+
 end EpdVerif.Drivers.Epd7in3f
